@@ -7,13 +7,14 @@ import json, glob, os, subprocess, sys
 
 root, rnd = sys.argv[1], int(sys.argv[2])
 PROPS = ['C04', 'C05', 'C06', 'C07', 'C08', 'C09', 'C10', 'C11', 'C12', 'C14', 'C18', 'C20']
-ORD = {1: 'FIRST', 2: 'SECOND', 3: 'THIRD', 4: 'FOURTH'}.get(rnd, f'{rnd}th')
+ORD = {1: 'FIRST', 2: 'SECOND', 3: 'THIRD', 4: 'FOURTH'}.get(rnd, f'{rnd}th')  # noqa
 PREFER = {
     2: "slips in the nb_device state machine or the async_device Class C paths; slips that only show in one region other than those used above; slips in lorawan-encoding that only the device-level behaviour exposes; interactions between two features (ADR x channel masks, join bias x CFList, Class C x confirmed frames, deferred TX x timers); in lora-phy, slips in sx127x as well as sx126x and in the LorawanRadio adapter.",
     3: "slips that need a LONG or multi-phase history (re-join after a session with negotiated parameters; counter or epoch boundaries; several downlinks in one window; the second or third procedure after an error); slips in code shared by both front-ends that only one front-end exposes; slips in the Timings / PhyRxTx adapter layer (lora-phy/src/lorawan_radio.rs) and in lora-phy mod_params / interface helpers; slips in per-region tables of regions not used so far (AS923-2/3/4, IN865, EU433, AU915); slips in how state is reset, kept or restored across join / re-join / session restore; slips that are only visible through radio configuration (frequency, data rate, power, timeouts, IQ inversion, sync word, CRC, preamble) rather than through return values.",
     4: "slips in how errors are propagated (an Err swallowed, mapped to the wrong variant, or a state change made before a fallible call whose failure is then reported as 'nothing happened'); slips in the nb_device state machine for unusual but legal event orders (a radio event or timeout arriving in a state that does not expect it, a new request while a procedure is in flight) and in the async Class C listening loops; slips that only show after many operations or at counter values near 2^16 / 2^32 or at table boundaries (highest data rate, highest channel index, last sub-band, maximum payload, maximum number of queued MAC answers); slips in lorawan-encoding (FCtrl bits, FOptsLen, MHDR types, creator/parser asymmetries) that only the device-level behaviour exposes; slips in lora-phy that are specific to the SX127x family or to one board option (TCXO, DC-DC, RX boost, PA_BOOST), or in the LorawanRadio adapter's use of timeouts, buffers and packet parameters.",
     5: "slips in time and unit arithmetic (RX window times taken from the wrong reference point, ms vs s at particular values, wrapping or saturating arithmetic at large delays or late timers, lora-modulation symbol / air-time arithmetic used for receive timeouts); slips in bookkeeping across MANY sessions (third join, re-join after expiry, ABP then OTAA, a session restored and then re-joined); Class C state that survives a re-join, an error or a disable / enable; the join path (DevNonce handling across attempts, JoinAccept of 17 vs 33 bytes, CFList types per region, accept heard in RX2 only); how confirmed uplinks, NoAck and session expiry are reported by each front-end; public getters / setters (set_datarate, set_adr, get_fcnt_up, ready_to_send_data, take_downlink) that leave the device in an inconsistent state when called at a particular moment; and lora-phy slips that depend on the ORDER of prepare / start / complete calls the LoRaWAN adapter really issues (including after a receive timeout, after an error, and when switching between continuous and single reception).",
     6: "whatever you judge the best-hidden: first list for yourself every function reachable from the property's code anchors that NONE of the earlier ideas touches, and pick your three changes there; favour code paths that need two or three unusual conditions at once (a particular region AND front-end AND history), arithmetic or table entries exercised only at one extreme value, and error or early-return branches.",
+    7: "changes whose effect crosses a module boundary (a helper whose contract is subtly changed and which is used at several call sites of which only one needs the old contract); changes that depend on the device's const generics or board constants (radio buffer size N, downlink queue depth D, MAX_RADIO_POWER / ANTENNA_GAIN, the Timings values) at unusual but legal values; changes that only show on the SECOND occurrence of something (second LinkADRReq block in a session, second join with other credentials, second confirmed downlink in a row, a sticky answer already pending when another one arrives, the second restore of a session); changes in what happens AFTER an error was returned to the application (the next call after Err(Radio), after NotJoined, after PayloadTooLarge, after SessionExpired, after NoJoinAccept); changes in defaults that are only used when the network never sends a setting; for lora-phy: what the driver does with interrupt flags that arrive together or late (stale flags of the previous operation, two flags in one status read), the order of the steps inside init / cold start for one board option, and the adapter's handling of a call repeated without an intervening prepare.",
 }
 props = {}
 for l in open('/verif/properties.jsonl'):
